@@ -120,7 +120,13 @@ func boolDef(v ssa.Value) ssa.Value {
 	return v
 }
 
-// knownNoErrors: the facts at block b imply !log.HasErrors() (possibly through shouldWriteFiles).
+// c17After, when set, is the instruction (the Compile call in rebuildImpl) after which an error
+// check must have been evaluated to count: errors reported by the link stage are only visible to a
+// HasErrors() call that runs after Compile returned.
+var c17After ssa.Instruction
+
+// knownNoErrors: the facts at block b imply !log.HasErrors() (possibly through shouldWriteFiles),
+// evaluated after c17After.
 func knownNoErrors(b *ssa.BasicBlock) (bool, string) {
 	for _, f := range factsAt(b) {
 		c := f.Cond
@@ -135,7 +141,11 @@ func knownNoErrors(b *ssa.BasicBlock) (bool, string) {
 			break
 		}
 		if isHasErrorsCall(d) && !pol {
-			return true, "dominated by !log.HasErrors()"
+			hc := d.(*ssa.Call)
+			if c17After != nil && hc.Parent() == c17After.Parent() && canRunBefore(hc, c17After) {
+				continue // checked before Compile ran: says nothing about link-stage errors
+			}
+			return true, "dominated by !log.HasErrors() evaluated after Compile"
 		}
 	}
 	return false, ""
@@ -154,6 +164,15 @@ func c17WriteGate(p *Prog) *RuleResult {
 	r := NewRule("C17/R2 write-gate", "every file write of a build is dominated by 'no errors ∧ writing enabled ∧ not stdout'; result fields that drive later writes are set only without errors")
 	rb := p.FindFunc("pkg/api.rebuildImpl")
 	if !r.Anchor("pkg/api.rebuildImpl", rb != nil) {
+		return r
+	}
+	c17After = nil
+	eachInstr(rb, func(b *ssa.BasicBlock, in ssa.Instruction) {
+		if c, ok := in.(*ssa.Call); ok && strings.HasSuffix(calleeFullName(c), "bundler.Bundle).Compile") {
+			c17After = in
+		}
+	})
+	if !r.Anchor("rebuildImpl calls (*Bundle).Compile", c17After != nil) {
 		return r
 	}
 	// the writer closure(s): any closure of rebuildImpl calling WriteFile / MkdirAll
@@ -322,6 +341,12 @@ func c17DeleteProvenance(p *Prog) *RuleResult {
 	if !r.Anchor("pkg/api.rebuildImpl", rb != nil) {
 		return r
 	}
+	c17After = nil
+	eachInstr(rb, func(b *ssa.BasicBlock, in ssa.Instruction) {
+		if c, ok := in.(*ssa.Call); ok && strings.HasSuffix(calleeFullName(c), "bundler.Bundle).Compile") {
+			c17After = in
+		}
+	})
 	var oldHashes *ssa.Parameter
 	for _, prm := range rb.Params {
 		if prm.Name() == "oldHashes" {
@@ -789,4 +814,29 @@ func varargElems(v ssa.Value) []ssa.Value {
 		}
 	}
 	return out
+}
+
+// canRunBefore: can instruction a execute and instruction b execute later (b reachable from a)?
+func canRunBefore(a, b ssa.Instruction) bool {
+	if a.Block() == b.Block() {
+		if instrIndex(a.Block(), a) < instrIndex(b.Block(), b) {
+			return true
+		}
+	}
+	target := b.Block()
+	seen := map[*ssa.BasicBlock]bool{}
+	work := append([]*ssa.BasicBlock{}, a.Block().Succs...)
+	for len(work) > 0 {
+		x := work[len(work)-1]
+		work = work[:len(work)-1]
+		if seen[x] {
+			continue
+		}
+		seen[x] = true
+		if x == target {
+			return true
+		}
+		work = append(work, x.Succs...)
+	}
+	return false
 }
